@@ -1235,6 +1235,48 @@ static void sc_ctx_listen(void) {
   coap_cleanup();
 }
 
+static void sc_up_reorder(void) {
+  /* Block1 upload by a scripted peer whose blocks arrive out of order: 0, 1, 3 (the last one,
+   * M = 0, while block 2 is outstanding), then 2.  The server has to remember the token of the
+   * "last" block to answer when the body is complete */
+  prologue(COAP_BLOCK_USE_LIBCOAP | COAP_BLOCK_SINGLE_BODY);
+  coap_address_t peer;
+  vn_addr4(&peer, 0x0a000001u, 40001);
+  static const int order[4] = {0, 1, 3, 2};
+  const size_t total = 4 * NS_BLK - 10;
+  int codes[4] = {0, 0, 0, 0};
+  for (int j = 0; j < 4; j++) {
+    int i = order[j];
+    uint8_t m[24 + NS_BLK];
+    size_t o = 0, off = (size_t)i * NS_BLK, n = total - off < NS_BLK ? total - off : NS_BLK;
+    int more = i < 3;
+    m[o++] = 0x41;
+    m[o++] = COAP_REQUEST_CODE_PUT;
+    m[o++] = 0x20;
+    m[o++] = (uint8_t)j;
+    m[o++] = (uint8_t)(0x50 + i);                          /* a token per block */
+    m[o++] = 0xB2; m[o++] = 'u'; m[o++] = 'p';
+    m[o++] = 0xD1; m[o++] = 27 - 11 - 13;
+    m[o++] = (uint8_t)((i << 4) | (more << 3) | 2);
+    m[o++] = 0xD2; m[o++] = 60 - 27 - 13;                  /* Size1, 2 bytes */
+    m[o++] = (uint8_t)(total >> 8); m[o++] = (uint8_t)total;
+    m[o++] = 0xFF;
+    memcpy(m + o, up_body + off, n);
+    o += n;
+    size_t before = vn_nout;
+    vn_inject_ep(W.srv, W.ep, &peer, NULL, m, o);
+    for (size_t k = before; k < vn_nout; k++)
+      if (vn_out[k].len >= 4 && vn_out[k].data[2] == 0x20 && vn_out[k].data[3] == (uint8_t)j)
+        codes[j] = vn_out[k].data[1];
+    W.cursor = vn_nout;
+  }
+  R("codes=%d.%d.%d.%d put=%d putlen=%zu", codes[0], codes[1], codes[2], codes[3], W.n_put, W.put_len);
+  if (W.n_put && (W.put_len != total || W.put_hash != fnv(up_body, total))) R("bad=wrong-body-at-server");
+  if (W.n_put > 1) R("bad=request-delivered-%d-times", W.n_put);
+  finish_with_canary();
+  world_down();
+}
+
 static void sc_async(void) {
   /* separate response through coap_register_async (empty ACK first, CON response later) */
   prologue(COAP_BLOCK_USE_LIBCOAP | COAP_BLOCK_SINGLE_BODY);
@@ -1290,7 +1332,29 @@ static const char osc_srv[] =
   "sender_id,ascii,\"s\"\n"
   "recipient_id,ascii,\"c\"\n";
 
+/* Appendix B.2 variant: both sides with an ID context and rfc8613_b_2 (the client replaces its
+ * ID context by a random one when the session is created); the server knows two recipients */
+static const char osc_cli_b2[] =
+  "master_secret,hex,\"0102030405060708090a0b0c0d0e0f10\"\n"
+  "master_salt,hex,\"9e7ca92223786340\"\n"
+  "id_context,hex,\"37cbf3210017a2d3\"\n"
+  "rfc8613_b_2,bool,true\n"
+  "sender_id,ascii,\"c\"\n"
+  "recipient_id,ascii,\"s\"\n";
+static const char osc_srv_b2[] =
+  "master_secret,hex,\"0102030405060708090a0b0c0d0e0f10\"\n"
+  "master_salt,hex,\"9e7ca92223786340\"\n"
+  "id_context,hex,\"37cbf3210017a2d3\"\n"
+  "rfc8613_b_2,bool,true\n"
+  "sender_id,ascii,\"s\"\n"
+  "recipient_id,ascii,\"c\"\n"
+  "recipient_id,ascii,\"d\"\n"
+  "recipient_id,ascii,\"e\"\n";
+static const char *osc_srv_conf = NULL, *osc_cli_conf = NULL;
+
 static void sc_oscore(void) {
+  if (!osc_srv_conf) osc_srv_conf = osc_srv;
+  if (!osc_cli_conf) osc_cli_conf = osc_cli;
   /* OSCORE: configuration parsing, security contexts, one protected GET, tear-down.
    * Armed from the start: the set-up is the larger part of the allocations. */
   coap_startup();
@@ -1302,7 +1366,7 @@ static void sc_oscore(void) {
   R("ctx=%d%d", W.srv != NULL, W.cli != NULL);
   int ok = W.srv && W.cli;
   if (ok) {
-    coap_str_const_t sc = {sizeof(osc_srv) - 1, (const uint8_t *)osc_srv};
+    coap_str_const_t sc = {strlen(osc_srv_conf), (const uint8_t *)osc_srv_conf};
     coap_oscore_conf_t *conf = coap_new_oscore_conf(sc, NULL, NULL, 0);
     R("sconf=%d", conf != NULL);
     int r = conf ? coap_context_oscore_server(W.srv, conf) : 0;
@@ -1321,7 +1385,7 @@ static void sc_oscore(void) {
     ok = W.ep && W.r_small;
   }
   if (ok) {
-    coap_str_const_t cc = {sizeof(osc_cli) - 1, (const uint8_t *)osc_cli};
+    coap_str_const_t cc = {strlen(osc_cli_conf), (const uint8_t *)osc_cli_conf};
     coap_oscore_conf_t *conf = coap_new_oscore_conf(cc, NULL, NULL, 0);
     R("cconf=%d", conf != NULL);
     if (conf) {
@@ -1344,6 +1408,12 @@ static void sc_oscore(void) {
     finish_with_canary();
   }
   world_down();
+}
+
+static void sc_oscore_b2(void) {
+  osc_srv_conf = osc_srv_b2;
+  osc_cli_conf = osc_cli_b2;
+  sc_oscore();
 }
 
 static void sc_block2(void) {
@@ -1679,7 +1749,7 @@ static const scen_t scens[] = {
   {"async_l1", sc_async_l1}, {"cache_l1", sc_cache_l1}, {"oscore_l1", sc_oscore_l1},
   {"qblock_l1", sc_qblock_l1}, {"obs_big_l1", sc_obs_big_l1},
   {"up_nosize", sc_up_nosize}, {"down_nosize", sc_down_nosize}, {"wk_mid", sc_wk_mid}, {"wk_big", sc_wk_big},
-  {"ctx_listen", sc_ctx_listen},
+  {"ctx_listen", sc_ctx_listen}, {"oscore_b2", sc_oscore_b2}, {"up_reorder", sc_up_reorder},
   {"fetch_obs", sc_fetch_obs}, {"fetch_obs_big", sc_fetch_obs_big}, {"fetch_obs_l1", sc_fetch_obs_l1},
   {NULL, NULL}};
 
